@@ -20,6 +20,7 @@ import (
 	"fmt"
 	"os"
 	"path/filepath"
+	"sync"
 	"time"
 
 	"github.com/semihalev/twig"
@@ -79,6 +80,21 @@ type svTimedLoader struct {
 
 func (l *svTimedLoader) GetModifiedTime(name string) (int64, error) { return l.mod, nil }
 
+// svTempBase: a memory-backed directory when the machine has one (the family makes ~10 file
+// operations per save; on a journalling disk they dominate the run time), else the default.
+var svTempBaseOnce sync.Once
+var svTempBaseDir string
+
+func svTempBase() string {
+	svTempBaseOnce.Do(func() {
+		if d, err := os.MkdirTemp("/dev/shm", "verif-c16-probe-"); err == nil {
+			os.Remove(d)
+			svTempBaseDir = "/dev/shm"
+		}
+	})
+	return svTempBaseDir
+}
+
 func runSave(t *vlib.T) {
 	var rec func(n int, name, first string, seq []int, later []string)
 	rec = func(n int, name, first string, seq []int, later []string) {
@@ -110,7 +126,10 @@ func runSave(t *vlib.T) {
 	}
 	// simplest first: all two-version histories, then the three-version ones
 	for n := 2; n <= 3; n++ {
-		for _, name := range svNames {
+		for ni, name := range svNames {
+			if n == 3 && ni > 0 && !t.Thorough() {
+				continue // quick: three-version histories under the first name only
+			}
 			for _, first := range svFirst {
 				rec(n, name, first, nil, nil)
 			}
@@ -121,7 +140,7 @@ func runSave(t *vlib.T) {
 func svCase(t *vlib.T, name, first string, seq []int, later []string) *vlib.Outcome {
 	o := &vlib.Outcome{Nontrivial: true, Counters: map[string]int64{}}
 	o.Class = fmt.Sprintf("sv:len%d,first=%s,last=%s", len(seq), first, later[len(later)-1])
-	dir, err := os.MkdirTemp("", "verif-c16-sv-")
+	dir, err := os.MkdirTemp(svTempBase(), "verif-c16-sv-")
 	if err != nil {
 		panic("harness: " + err.Error())
 	}
